@@ -17,7 +17,11 @@ META = dict(
           "its (-force on body1, +force on body2) pair exactly once whatever the other contacts do, nothing for f<=0 or non-point contacts, any number of contacts; "
           "(B) per-contact law on the transliterated body, every branch: normal component N>0 (never attractive) with N^2 == (16/9) R k^3 x^3 (1+3/2 c xdot)^2 i.e. the documented "
           "Hertz/Hunt-Crossley law with k=E^(2/3) combination s1=k2/(k1+k2), c=c1 s1+c2 s2; friction in the tangent plane, opposing slip on each body, magnitude == documented "
-          "Hollars formula with u=2u1u2/(u1+u2); forces on the two bodies equal and opposite at one ground point; pe == 2/5 fH x. Other contact models are not covered."),
+          "Hollars formula with u=2u1u2/(u1+u2); forces on the two bodies equal and opposite at one ground point; pe == 2/5 fH x. "
+          "(C) CompliantContactSubsystem's calcHertzContactForce (shared by the HertzCircular and HertzElliptical generators) with stribeck()/step5(), every branch: cleared result only for depth<=0; "
+          "contact point == origin + x(1/2-s1) n; the penetration rate is that of surface 2's material point AT THE CONTACT POINT; fH^2 == e^2 (16/9) R k^3 x^3, fHC == 3/2 c xdot fH, "
+          "N == fH+fHC > 0, zero force only when 1+3/2 c xdot <= 0; friction tangent, == -(N mu/vslip) * slip velocity (opposes slip, magnitude mu N), none below the slip threshold; no moment at the contact point; "
+          "pe == 2/5 fH x; power dissipation >= 0; stribeck: 0 <= mu_dry <= us on every segment, 0 at v=0, continuous at the segment ends. Other contact models are not covered."),
     note="Assumes real arithmetic and the mocked contact/matter API contracts listed; trusts CBMC, z3/cvc5, extractor/transliterator rules.",
     technique="CBMC loop contract on extracted control slice + symbolic execution of transliterated real code over the reals with SMT (z3 QF_NRA)",
     design_ref="4 C37")
@@ -199,6 +203,232 @@ def law(ctx, only_reaction=False, U="huntcrossley.law"):
     ctx.add(Obligation("guard:contact side conditions satisfiable", "guards", "z3", "discharged" if s_.check() == z3.sat else "undecided", 0, "reachability guard"))
 
 
+CCS_CPP = os.path.join(REPO, "Simbody/src/CompliantContactSubsystem.cpp")
+
+
+def hertz_law(ctx):
+    """CompliantContactSubsystem: calcHertzContactForce (shared by the circular and elliptical Hertz generators) and the
+    stribeck()/step5() friction-coefficient helpers, transliterated; same opaque/reveal lemma chains as law()."""
+    from blib import BUnit
+    B = BUnit(ctx); ns = B.ns
+    U = "hertz.law"; FN = "calcHertzContactForce"
+    ns["SpatialVec"] = lambda a, b=None: S.SpatialVec(a, a if b is None else b)      # Vec<2,Vec3>(e) fills both elements with e
+    sig = z3.Real("SignificantReal"); ns["SignificantReal"] = D(sig)
+    def pre(b):
+        b = b.replace("if (details) details->clear();", "")
+        b = re.sub(r"if \(details\) \{.*\}\s*$", "", b, flags=re.S)       # the optional ContactDetail record (details == null here)
+        return b
+    f = B.add_function(CCS_CPP, r"static void calcHertzContactForce\s*\([^)]*\)\s*", pyname="calcHertzContactForce", pre=pre, cxxname="calcHertzContactForce (CompliantContactSubsystem.cpp)")
+    step5 = B.add_function(CCS_CPP, r"inline static Real step5\(Real x\)\s*", pyname="step5", cxxname="step5")
+    strib = B.add_function(CCS_CPP, r"inline static Real stribeck\(Real us, Real ud, Real uv, Real v\)\s*", pyname="stribeck_real", cxxname="stribeck")
+    B.dump_sources()
+    # ---- stribeck: 0 <= mu_dry <= us and mu == mu_dry + uv v, on every segment (friction limit) ----
+    us_, ud_, uv_, v_ = z3.Reals("us ud uv v")
+    base = [us_ >= ud_, ud_ >= 0, uv_ >= 0, v_ >= 0]
+    seen = set()
+    for path, script, mu in B.run_paths(lambda: strib(D(us_), D(ud_), D(uv_), D(v_)), 2):
+        key = tuple(str(c_) for c_ in path)
+        if key in seen: continue
+        seen.add(key)
+        cond = base + path
+        s_ = z3.Solver(); s_.add(*cond)
+        if s_.check() != z3.sat: continue
+        dry = val(mu) - uv_ * v_
+        B.prove_bool("stribeck segment %d: 0 <= mu_dry <= us (friction never exceeds the static limit plus the viscous term)" % len(seen), z3.And(dry >= 0, dry <= us_), cond, "hertz.stribeck", "stribeck", timeout_ms=30000)
+        B.prove_bool("stribeck segment %d: mu >= 0" % len(seen), val(mu) >= 0, cond, "hertz.stribeck", "stribeck", timeout_ms=30000)
+    for nm_, v0, want in (("stribeck(v=0) == 0 (no friction without slip)", 0, lambda: D(0)),
+                          ("stribeck continuous at v=1 (value us + uv)", 1, lambda: D(us_) + D(uv_)),
+                          ("stribeck continuous at v=3 (value ud + 3 uv)", 3, lambda: D(ud_) + 3 * D(uv_))):
+        for path, script, mu in B.run_paths(lambda: strib(D(us_), D(ud_), D(uv_), D(z3.RealVal(v0))), 2):
+            s_ = z3.Solver(); s_.add(*(base + path))
+            if s_.check() != z3.sat: continue
+            B.prove_eq(nm_, mu, want(), base + path, "hertz.stribeck", "stribeck")
+    # continuity across the segment boundaries: both neighbouring branch expressions agree at v=1 and v=3
+    B.prove_eq("stribeck: branch v<1 at v=1 equals branch 1<=v<3 at v=1", D(us_) * step5(D(z3.RealVal(1))), D(us_) - (D(us_) - D(ud_)) * step5(D(z3.RealVal(0))), base, "hertz.stribeck", "stribeck")
+    B.prove_eq("stribeck: branch 1<=v<3 at v=3 equals ud", D(us_) - (D(us_) - D(ud_)) * step5(D(z3.RealVal(1))), D(ud_), base, "hertz.stribeck", "stribeck")
+    # ---- the contact law; stribeck enters through a generalised value mu >= 0 (its properties are proved above) ----
+    mu_var = z3.Real("mu_generalised")
+    ns["stribeck"] = lambda *a: D(mu_var)
+    class Mat_: pass
+    mats = {}; pside = [mu_var >= 0, sig > 0]
+    for k_ in (1, 2):
+        m = Mat_()
+        vals = {}
+        for nm in ("Stiffness23", "Dissipation", "StaticFriction", "DynamicFriction", "ViscousFriction"):
+            v = z3.Real("%s%d" % (nm, k_)); vals[nm] = v
+            pside.append(v > 0 if nm == "Stiffness23" else v >= 0)
+            setattr(m, "get" + nm, (lambda v=v: D(v)))
+        m.vals = vals; mats[k_] = m
+    class Surf:
+        def __init__(s_, m): s_.m = m
+        def getMaterial(s_): return s_.m
+    class Tracker:
+        def getContactSurface(s_, ix): return Surf(mats[ix])
+    vt = z3.Real("vtrans"); pside.append(vt > 0)
+    class Subsys:
+        def getTransitionVelocity(s_): return D(vt)
+        def getOOTransitionVelocity(s_): return 1 / D(vt)
+    p12 = Vec(*[z3.Real("p12_%d" % i) for i in range(3)]); w12 = Vec(*[z3.Real("w12_%d" % i) for i in range(3)]); v12 = Vec(*[z3.Real("v12_%d" % i) for i in range(3)])
+    class Contact_:
+        def getSurface1(s_): return 1
+        def getSurface2(s_): return 2
+        def getTransform(s_): return S.Transform(eye(3), p12)          # R12 is not used by the law
+        def getContactId(s_): return 7
+    n = Vec(*[z3.Real("n%d" % i) for i in range(3)]); org = Vec(*[z3.Real("o%d" % i) for i in range(3)])
+    x, Rr, ee = z3.Reals("x R e")
+    geo = [val(n.normSqr()) == 1, Rr > 0, ee > 0]
+    class CF:
+        def __init__(s_): s_.rec = {}
+        def clear(s_): s_.rec["cleared"] = True
+        def setContactId(s_, i): s_.rec["id"] = i
+        def setContactPoint(s_, p): s_.rec["pt"] = p
+        def setForceOnSurface2(s_, F): s_.rec["F"] = F
+        def setPotentialEnergy(s_, e_): s_.rec["pe"] = e_
+        def setPowerDissipation(s_, p): s_.rec["pd"] = p
+    def peel(e_):
+        sg = 1
+        while z3.is_app_of(e_, z3.Z3_OP_UMINUS):
+            e_ = e_.arg(0); sg = -sg
+        return sg, e_
+    def fvars(e_, acc=None):
+        acc = set() if acc is None else acc
+        if z3.is_const(e_) and e_.decl().kind() == z3.Z3_OP_UNINTERPRETED:
+            acc.add(str(e_))
+        for c_ in e_.children():
+            fvars(c_, acc)
+        return acc
+    def runit():
+        S.reset_env(); S.ENV.abstract_scalars = True
+        cf = CF()
+        f(Subsys(), Tracker(), None, Contact_(), n, org, D(x), S.SpatialVec(w12, v12), D(Rr), D(ee), cf, None)
+        S.ENV.abstract_scalars = False
+        return cf.rec, (list(S.ENV.side), list(S.ENV.defs))
+    seen = set(); npaths = 0
+    T = 30000
+    for path, script, (rec, (envside, defs)) in B.run_paths(runit, 6):
+        key = tuple(str(c_) for c_ in path)
+        if key in seen: continue
+        seen.add(key)
+        alld = [d_[2] for d_ in defs]
+        cond = pside + geo + envside + path + alld
+        s_ = z3.Solver(); s_.set("timeout", 10000); s_.add(*cond)
+        if s_.check() == z3.unsat: continue
+        npaths += 1
+        tag = "path%d" % npaths
+        if rec.get("cleared"):
+            B.prove_bool("%s: result cleared only without penetration (depth <= 0)" % tag, x <= 0, cond, U, FN, timeout_ms=T)
+            continue
+        F = rec["F"]; force = F[1]
+        B.prove_eq("%s: no moment in the reported contact force (it acts at the contact point)" % tag, F[0], Vec(0, 0, 0), cond, U, FN, timeout_ms=T)
+        lets_ = [d_ for d_ in defs if d_[0] == "let"]
+        ld = [d_[2] for d_ in lets_]; lv = [D(d_[1]) for d_ in lets_]
+        if len(lets_) not in (2, 4, 5):
+            ctx.undecide("Hertz law %s: unexpected number of let-abstracted scalars (%d)" % (tag, len(lets_))); continue
+        # ---- the documented quantities, built in the environment the code's run left behind (same reciprocal / root variables) ----
+        S.ENV.abstract_scalars = True; nd0 = len(S.ENV.defs); ns0 = len(S.ENV.side)
+        k1, k2 = D(mats[1].vals["Stiffness23"]), D(mats[2].vals["Stiffness23"])
+        s1 = k2 / (k1 + k2); kk = k1 * s1
+        cc = D(mats[1].vals["Dissipation"]) * s1 + D(mats[2].vals["Dissipation"]) * (1 - s1)
+        shift_doc = D(x) * (Q("0.5") - s1)
+        fH_o = D(ee) * (Q("4.0") / Q("3.0")) * kk * D(x) * S.sqrt(D(Rr) * kk * D(x))
+        S.ENV.abstract_scalars = False
+        odefs = [d_[2] for d_ in S.ENV.defs[nd0:]] + list(S.ENV.side[ns0:])        # definitions the oracle itself introduced (none when its terms coincide with the code's)
+        recips = [d_[2] for d_ in S.ENV.defs if d_[0] == "recip"]
+        sides = list(S.ENV.side)
+        tsh, tnx = lv[0], lv[1]                              # contact point shift; the code's (-xdot) = vel . normal
+        pt_c = org + tsh * n
+        pt_doc = org + shift_doc * n
+        B.prove_eq("%s: reported contact point == the code's contact point" % tag, rec["pt"], pt_c, [], U, FN, timeout_ms=T, minimal=True)
+        B.prove_eq("%s: contact point == origin + depth*(1/2 - s1)*normal, s1 = k2/(k1+k2) (documented)" % tag, pt_c, pt_doc, [ld[0]] + recips + odefs, U, FN, timeout_ms=T, minimal=True)
+        vel_c = v12 + cross(w12, pt_c - p12)                 # velocity of S2's material point at the contact point, in S1
+        vn_c = dot(vel_c, n)
+        B.prove_eq("%s: the code's -xdot == (velocity of surface 2's point AT THE CONTACT POINT) . normal" % tag, tnx, vn_c, [ld[1]], U, FN, timeout_ms=T, minimal=True)
+        # rewriting hypotheses with already established equalities (opaque / reveal): heavy raw terms -> the code's own scalars or fresh generalised variables
+        hv, Cv, Pv = z3.Real("fH_generalised"), z3.Real("c_generalised"), z3.Real("fNormal_generalised")
+        sg, core = peel(ld[1].arg(1))
+        def RW(h_, fH_to):
+            pairs = [(val(fH_o), fH_to), (val(cc), Cv), (core, (val(tnx) if sg > 0 else -val(tnx))), (val(vn_c), val(tnx))]
+            for a_, b_ in pairs:
+                h_ = z3.substitute(h_, (a_, b_))
+            return h_
+        def RWH(hs, fH_to, allowed):
+            """rewritten hypotheses; if a rewrite did not fire (heavy variables remain) the defining equalities are added instead (sound, slower)"""
+            out = [RW(h_, fH_to) for h_ in hs]
+            extra = set()
+            for h_ in out:
+                extra |= fvars(h_) - allowed
+            if extra:
+                out += [fH_to == val(fH_o), Cv == val(cc), ld[1]] + recips + sides
+            return out
+        posfacts = pside + geo + [x > 0] + recips + sides + odefs
+        B.guard_sat("%s positivity facts" % tag, posfacts, U)
+        B.prove_bool("%s: lemma fH > 0 for depth > 0 (e, R, k > 0)" % tag, val(fH_o) > 0, posfacts, U, FN, timeout_ms=T, minimal=True)
+        B.prove_bool("%s: lemma combined dissipation c = c1 s1 + c2 s2 >= 0" % tag, val(cc) >= 0, pside + recips + odefs, U, FN, timeout_ms=T, minimal=True)
+        B.prove_eq("%s: lemma fH^2 == e^2 (16/9) R k^3 x^3 (Hertz), k = k1 k2/(k1+k2)" % tag, fH_o * fH_o, D(ee) * D(ee) * (Q("16.0") / Q("9.0")) * D(Rr) * kk * kk * kk * D(x) * D(x) * D(x), recips + sides + odefs, U, FN, timeout_ms=T, minimal=True)
+        basev = {"fH_generalised", "c_generalised", str(val(tnx)), "mu_generalised", "x"}
+        if len(lets_) == 2:
+            B.prove_eq("%s: zero force reported" % tag, force, Vec(0, 0, 0), cond, U, FN, timeout_ms=T)
+            hy = RWH(path, hv, basev)
+            B.guard_sat("%s rewritten path condition" % tag, hy + [hv > 0, Cv >= 0], U)
+            B.prove_bool("%s: zero force only if depth > 0 and 1 + 3/2 c xdot <= 0 (documented force not positive)" % tag, z3.And(x > 0, 1 + z3.RealVal("1.5") * Cv * (-val(tnx)) <= 0),
+                         hy + [hv > 0, Cv >= 0], U, FN, timeout_ms=T, minimal=True)
+            continue
+        tH, tHC = lv[2], lv[3]
+        friction = len(lets_) == 5
+        unitn = [val(n.normSqr()) == 1]
+        velT = vel_c - tnx * n
+        Hn = unitn + [val(tnx) == val(vn_c)]
+        N = dot(force, n)
+        fr = force - N * n
+        B.prove_eq("%s: the code's fH scalar == documented Hertz force" % tag, tH, fH_o, [ld[2]] + odefs, U, FN, timeout_ms=T, minimal=True)
+        B.prove_eq("%s: fHC == fH * 3/2 c xdot with xdot = -(vel . n) (Hunt-Crossley dissipation)" % tag, tHC, tH * Q("1.5") * D(Cv) * (-tnx), RWH([ld[3]], val(tH), basev | {str(val(tH)), str(val(tHC))}), U, FN, timeout_ms=T, minimal=True)
+        B.prove_eq("%s: normal component == fH + fHC" % tag, N, tH + tHC, Hn + recips, U, FN, timeout_ms=T, minimal=True)
+        NisF = [val(N) == val(tH + tHC), val(tHC) == val(tH * Q("1.5") * D(Cv) * (-tnx))]
+        allowed = basev | {str(val(tH)), str(val(tHC))}
+        B.guard_sat("%s rewritten path condition" % tag, RWH(path[:2], val(tH), allowed) + NisF + [val(tH) > 0, Cv >= 0], U)
+        B.prove_bool("%s: normal component N > 0 (never attractive)" % tag, val(N) > 0, RWH(path[:2], val(tH), allowed) + NisF, U, FN, timeout_ms=T, minimal=True)
+        B.prove_eq("%s: friction lies in the tangent plane" % tag, dot(fr, n), 0, unitn, U, FN, timeout_ms=T, minimal=True)
+        if friction:
+            tF = lv[4]
+            B.prove_eq("%s: friction == (-fFriction/vslip) * tangential slip velocity of surface 2 at the contact point" % tag, fr, tF * velT, NisF[:1] + Hn, U, FN, timeout_ms=T, minimal=True)
+            vs = S.sqrt(velT.normSqr())                     # same radicand as the code's vslip -> same root variable (else its own definition is in `sides` below)
+            sides = list(S.ENV.side)
+            rv = None
+            for d_ in S.ENV.defs:
+                if d_[0] == "recip" and str(val(vs)) in (str(d_[2].arg(0).arg(0)), str(d_[2].arg(0).arg(1))):
+                    rv = d_[1]
+            if rv is None:
+                ctx.undecide("Hertz law %s: reciprocal of vslip not found among the let-definitions" % tag); continue
+            fN_t = val(tH + tH * Q("1.5") * D(Cv) * (-tnx))
+            d4 = RW(ld[4], val(tH))
+            d4 = z3.substitute(d4, (fN_t, Pv))
+            al4 = {"fNormal_generalised", "mu_generalised", str(rv), str(val(tF))}
+            h4 = [d4] if not (fvars(d4) - al4) else [ld[4], Pv == val(tH) + val(tHC), NisF[1], val(tH) == val(fH_o), Cv == val(cc), ld[1]] + recips + sides
+            B.guard_sat("%s friction definitions" % tag, h4 + [Pv > 0, mu_var >= 0, val(vs) >= 0, rv * val(vs) == 1], U)
+            B.prove_eq("%s: friction coefficient factor == -(fNormal * mu) / vslip" % tag, tF, -(D(Pv) * D(mu_var)) * D(rv), h4, U, FN, timeout_ms=T, minimal=True)
+            vsfacts = [val(vs) >= 0, rv * val(vs) == 1]
+            B.prove_bool("%s: friction coefficient factor <= 0 (friction on surface 2 opposes its slip relative to surface 1)" % tag, val(tF) <= 0,
+                         [val(tF) == val(-(D(Pv) * D(mu_var)) * D(rv)), Pv > 0, mu_var >= 0] + vsfacts, U, FN, timeout_ms=T, minimal=True)
+            B.prove_eq("%s: |t v|^2 == t^2 |v|^2 for the friction vector (identity)" % tag, dot(tF * velT, tF * velT), tF * tF * velT.normSqr(), [], U, FN, timeout_ms=T, minimal=True)
+            s_gen = z3.Real("slip_sq_generalised")
+            B.prove_eq("%s: t^2 s == (mu fNormal)^2 whenever vslip^2 == s, vslip*(1/vslip) == 1, t == -(fNormal mu)/vslip (friction magnitude == mu * normal force)" % tag,
+                       tF * tF * D(s_gen), (D(Pv) * D(mu_var)) * (D(Pv) * D(mu_var)), [val(tF) == val(-(D(Pv) * D(mu_var)) * D(rv)), val(vs) * val(vs) == s_gen, rv * val(vs) == 1], U, FN, timeout_ms=T, minimal=True)
+        else:
+            B.prove_eq("%s: no friction below the slip threshold" % tag, fr, Vec(0, 0, 0), NisF[:1] + unitn, U, FN, timeout_ms=T, minimal=True)
+        B.prove_eq("%s: potential energy == 2/5 fH x" % tag, D(val(rec["pe"])), Q("0.4") * tH * D(x), [ld[2]], U, FN, timeout_ms=T, minimal=True)
+        pd = RW(val(rec["pd"]), hv)
+        if friction:
+            pd = z3.substitute(pd, (z3.substitute(fN_t, (val(tH), hv)), Pv))
+        alp = {"fH_generalised", "c_generalised", str(val(tnx)), "mu_generalised", "fNormal_generalised"} | ({str(val(vs))} if friction else set())
+        hp = [hv > 0, Cv >= 0, mu_var >= 0, Pv > 0] + ([val(vs) >= 0] if friction else [])
+        if fvars(pd) - alp:
+            hp += [hv == val(fH_o), Cv == val(cc), ld[1], Pv == hv + hv * z3.RealVal("1.5") * Cv * (-val(tnx))] + recips + sides
+        B.guard_sat("%s power hypotheses" % tag, hp, U)
+        B.prove_bool("%s: power dissipation >= 0 (fH > 0, c >= 0, fNormal > 0, mu >= 0)" % tag, pd >= 0, hp, U, FN, timeout_ms=T, minimal=True)
+    if npaths < 4:
+        ctx.undecide("Hertz law: only %d feasible paths explored" % npaths)
+
+
 def main(ctx):
     ctx.level = "proof"
     rep_loop = None
@@ -210,18 +440,24 @@ def main(ctx):
         law(ctx)
     except ExtractionError as e:
         ctx.undecide("extraction (law): %s" % e)
+    try:
+        hertz_law(ctx)
+    except ExtractionError as e:
+        ctx.undecide("extraction (Hertz law): %s" % e)
     ctx.trust("cbmc/goto-cc/goto-instrument 6.11.0 (C front end), MiniSat"); ctx.trust("z3 4.x / cvc5 1.0 (QF_NRA)")
     ctx.trust("tools/extract.py + tools/translit.py rule tables (logged) and tools/symlib.py shim")
     ctx.assume("machine arithmetic treated as mathematical (reals) in part B")
     for a in FL.world_assumptions(): ctx.assume(a)
     ctx.assume("contact geometry by contract: PointContact getters return depth>0, unit normal (from surface1 towards surface2), location, effective radius>0; materials: stiffness>0, other coefficients>=0, transition velocity>0")
     ctx.assume("findStationAtGroundPoint followed by findStationVelocityInGround/applyForceToBodyPoint acts at the given ground point (R*~R == 1)")
-    ctx.not_decided += ["ElasticFoundationForce, CompliantContactSubsystem generators, SmoothSphereHalfSpaceForce, ExponentialSpringForce", "'vanish without penetration' (depends on the contact tracker producing contacts only when depth>0)",
+    ctx.not_decided += ["ElasticFoundationForce, CompliantContactSubsystem's elastic-foundation / brick generators and its force application (calcForce loop), SmoothSphereHalfSpaceForce, ExponentialSpringForce", "'vanish without penetration' (depends on the contact tracker producing contacts only when depth>0)",
                         "friction limit as an inequality (the exact documented coefficient is proved instead)"]
     ctx.explanation = "%d functions under contract; %d obligations." % (len(ctx.functions), len(ctx.obligations))
     def rp(ob):
         if ob.unit.startswith("huntcrossley.calcForce") and rep_loop:
             return rep_loop(ob)
+        if ob.unit.startswith("hertz."):
+            return replay_hertz(ctx, ob)
         return replay(ctx, ob)
     return ctx.finish(replayer=rp)
 
@@ -236,3 +472,12 @@ def replay(ctx, ob):
                                    extra_srcs=[os.path.join(src, "HuntCrossleyForce.cpp")], extra_inc=[src])
     rc, o, e, t = run([_EXE["exe"], str(ctx.seed)], 300)
     return dict(cmd="c37_law_replay %d" % ctx.seed, output=o[-3000:]), "REPRODUCED:" in o
+
+
+def replay_hertz(ctx, ob):
+    if "hertz" not in _EXE:
+        src = os.path.join(REPO, "Simbody/src")
+        _EXE["hertz"] = native_build(ctx, "c37_hertz_replay", os.path.join(VERIF, "replay/c37_hertz_replay.cpp"), libs=True,
+                                     extra_srcs=[os.path.join(src, "CompliantContactSubsystem.cpp")], extra_inc=[src])
+    rc, o, e, t = run([_EXE["hertz"], str(ctx.seed)], 300)
+    return dict(cmd="c37_hertz_replay %d" % ctx.seed, output=o[-3000:]), "REPRODUCED:" in o
